@@ -21,7 +21,8 @@ import itertools
 
 from ..finite import evaluate
 from ..model import src, walk_no_nested
-from ..terms import callee_name, calls_in, compare_parts, inline, kwargs_of, single_def
+from ..sval import NONE, const, norm_pc, same, strip_ids
+from .. import tq
 from . import common
 
 EXPLANATION = ('static analysis: inclusion facts collected from the is_subset conditions dominating each return of the '
@@ -38,11 +39,25 @@ ASSUMPTIONS = [
 IKESA = 'ikesa.IkeSa'
 
 
-def subset_fact(e):
-    """(a, b) for the call `a.is_subset(b)`"""
-    if isinstance(e, ast.Call) and callee_name(e) == 'is_subset' and len(e.args) == 1:
-        return src(e.func.value), src(e.args[0])
-    return None
+SELF = ('param', 'self')
+
+
+def attr(t, n):
+    return ('attr', t, n)
+
+
+def subset_facts(pc):
+    """{(a, b)} for the atoms `a.is_subset(b)` that hold on the path"""
+    out = set()
+    for t, pol in pc:
+        t = strip_ids(t)
+        if pol and tq.is_call(t, 'message.TrafficSelector.is_subset') and len(t[3]) == 1:
+            out.add((t[2], t[3][0][1]))
+    return out
+
+
+def mode_term(sv, msg):
+    return sv.expr('xfrm.Mode.TRANSPORT if %s.get_notifies(PayloadNOTIFY.Type.USE_TRANSPORT_MODE, True) else xfrm.Mode.TUNNEL' % msg)
 
 
 def run(ctx):
@@ -51,224 +66,181 @@ def run(ctx):
 
     # ---------------------------------------------------------------- R1
     fi = ctx.func(IKESA + '._get_ipsec_configuration')
-    g = esc.add_exception_edges(fi)
+    G = ctx.sval(fi)
     ps = fi.call_params()
     ctx.require(len(ps) == 2, 'anchor vanished: _get_ipsec_configuration(payload_tsi, payload_tsr)')
-    loops = [l for h, l in g.loops if isinstance(l, ast.For)]
-    elem_of = {}   # loop variable -> which request list it ranges over
-    conf_var = None
-    for l in loops:
-        it = src(l.iter)
-        for i, p in enumerate(ps):
-            if it in ('reversed(%s.traffic_selectors)' % p, '%s.traffic_selectors' % p):
-                elem_of[src(l.target)] = ('tsi', 'tsr')[i]
-        if it == 'self.configuration.protect':
-            conf_var = src(l.target)
-    ctx.check(sorted(elem_of.values()) == ['tsi', 'tsr'] and conf_var is not None, 'R1',
-              'the policy lookup ranges over the request\'s TSi x TSr x every protect entry', key=('R1', 'loops'),
-              site=ctx.site(fi, fi.node))
-    rets = [n for n in g.nodes if n.kind == 'stmt' and isinstance(n.ast, ast.Return)]
+    site = ctx.site(fi, fi.node)
+    protect = attr(attr(SELF, 'configuration'), 'protect')
+    req = {'tsi': attr(('param', ps[0]), 'traffic_selectors'), 'tsr': attr(('param', ps[1]), 'traffic_selectors')}
+
+    def kind_of(t):
+        """which collection an element term ranges over: 'conf' / 'tsi' / 'tsr'"""
+        t = strip_ids(t)
+        if t[0] != 'elem':
+            return None
+        if t[1] == protect:
+            return 'conf'
+        for k, lst in req.items():
+            if t[1] == lst or (tq.is_call(t[1], 'builtins.reversed') and list(tq.args(t[1]).values()) == [lst]):
+                return k
+        return None
+    rets = [(pc, strip_ids(t)) for pc, t, _ in G.returns]
     ctx.check(len(rets) >= 1, 'R1', '_get_ipsec_configuration returns matches', key=('R1', 'returns'))
-    tsi_var = next((v for v, k in elem_of.items() if k == 'tsi'), None)
-    tsr_var = next((v for v, k in elem_of.items() if k == 'tsr'), None)
-    for r in rets:
-        v = r.ast.value
-        ok = isinstance(v, ast.Tuple) and len(v.elts) == 3 and src(v.elts[0]) == conf_var
-        ctx.check(ok, 'R1', 'a match returns (policy entry, local selector, peer selector)', key=('R1', 'return-shape', src(v)),
-                  site=ctx.site(fi, r.ast))
+    doms = set()
+    for pc, t in rets:
+        for x in tq.find(t, lambda y: y[0] == 'elem'):
+            doms.add(kind_of(x))
+        for a, b in subset_facts(pc):
+            doms.add(kind_of(a))
+            doms.add(kind_of(b))
+    ctx.check({'conf', 'tsi', 'tsr'} <= doms, 'R1', 'the policy lookup ranges over the request\'s TSi x TSr x every protect entry',
+              key=('R1', 'loops'), site=site)
+    for pc, v in rets:
+        ok = v[0] == 'tuple' and len(v[1]) == 3 and kind_of(v[1][0]) == 'conf'
+        ctx.check(ok, 'R1', 'a match returns (policy entry, local selector, peer selector)', key=('R1', 'return-shape', tq.text(v, 80)),
+                  site=site)
         if not ok:
             continue
-        local, peer = src(v.elts[1]), src(v.elts[2])
-        facts = set()
-        for c in g.nodes:
-            if c.kind == 'cond':
-                f = subset_fact(c.ast)
-                if f and common.dominated_by_edge(g, r, c, 'T'):
-                    facts.add(f)
-        need = [(local, conf_var + '.my_ts', 'local selector inside the policy\'s my_ts'),
-                (local, tsr_var, 'local selector inside the requested TSr'),
-                (peer, conf_var + '.peer_ts', 'peer selector inside the policy\'s peer_ts'),
-                (peer, tsi_var, 'peer selector inside the requested TSi')]
-        for a, b, what in need:
-            ctx.check(a == b or (a, b) in facts, 'R1', 'return %s: %s' % (src(v), what),
-                      key=('R1', 'inclusion', src(v), what), site=ctx.site(fi, r.ast), detail={'facts': sorted(facts)})
-    ctx.check(g.exit.id not in g.reach([g.entry], blocked_nodes=rets, follow_exc=False) and
-              'TsUnacceptable' in esc.escapes(fi), 'R1', 'a request matching no policy raises TsUnacceptable',
-              key=('R1', 'fallthrough'), site=ctx.site(fi, fi.node))
+        conf, local, peer = v[1]
+        facts = subset_facts(strip_ids(pc))
+        tsr_el = [x for f_ in facts for x in f_ if kind_of(x) == 'tsr'] + [x for x in (local, peer) if kind_of(x) == 'tsr']
+        tsi_el = [x for f_ in facts for x in f_ if kind_of(x) == 'tsi'] + [x for x in (local, peer) if kind_of(x) == 'tsi']
+        need = [(local, [attr(conf, 'my_ts')], 'local selector inside the policy\'s my_ts'),
+                (local, tsr_el, 'local selector inside the requested TSr'),
+                (peer, [attr(conf, 'peer_ts')], 'peer selector inside the policy\'s peer_ts'),
+                (peer, tsi_el, 'peer selector inside the requested TSi')]
+        for a, bs, what in need:
+            ctx.check(any(a == b or (a, b) in facts for b in bs), 'R1', 'return %s: %s' % (tq.text(v, 80), what),
+                      key=('R1', 'inclusion', tq.text(v, 80), what), site=site,
+                      detail={'facts': sorted('%s in %s' % (tq.text(x), tq.text(y)) for x, y in facts)})
+    ctx.check(len(G.exit_envs) == len(G.returns) and 'TsUnacceptable' in esc.escapes(fi) and
+              any(tq.is_call(t, 'new message.TsUnacceptable') and not pc for pc, t, _ in G.raises), 'R1',
+              'a request matching no policy raises TsUnacceptable', key=('R1', 'fallthrough'), site=site)
     # caller: orientation of the unpacking and of what is installed / answered
     rq = ctx.func(IKESA + '._process_create_child_sa_negotiation_req')
-    gq = esc.add_exception_edges(rq)
+    Q = ctx.sval(rq)
     msg = rq.call_params()[0]
-    calls = [(n, x) for n, x in common.nodes_calling(ctx, rq, gq, common.calls_named('_get_ipsec_configuration'))]
-    ctx.check(len(calls) == 1 and isinstance(calls[0][0].ast, ast.Assign) and isinstance(calls[0][0].ast.targets[0], ast.Tuple)
-              and len(calls[0][0].ast.targets[0].elts) == 3, 'R1', 'the responder looks the request up in its policies',
-              key=('R1', 'caller'), site=ctx.site(rq, rq.node))
+    calls = Q.calls_to(qual=fi.qual)
+    ctx.check(len(calls) == 1, 'R1', 'the responder looks the request up in its policies', key=('R1', 'caller'), site=ctx.site(rq, rq.node))
+    inst_q = []
     if len(calls) == 1:
-        n, x = calls[0]
-        conf_l, local_l, peer_l = [src(e) for e in n.ast.targets[0].elts]
-        args = [inline(res, rq, a, 3, frozenset([msg])) for a in x.args]
-        ok = len(args) == 2 and src(args[0]).startswith('%s.get_payload(Payload.Type.TSi, True' % msg) \
-            and src(args[1]).startswith('%s.get_payload(Payload.Type.TSr, True' % msg)
+        lk = calls[0]
+        conf_l, local_l, peer_l = (('index', lk.term, const(i)) for i in range(3))
+        ok = tq.match(Q.expr('%s.get_payload(Payload.Type.TSi, True)' % msg), lk.args.get(ps[0], NONE)) is not None and \
+            tq.match(Q.expr('%s.get_payload(Payload.Type.TSr, True)' % msg), lk.args.get(ps[1], NONE)) is not None
         ctx.check(ok, 'R1', 'the lookup receives the request\'s protected TSi and TSr payloads in that order',
-                  key=('R1', 'caller-args'), site=ctx.site(rq, x))
-        cs = [c for c in calls_in(rq.node) if callee_name(c) == 'ChildSa']
+                  key=('R1', 'caller-args'), site=ctx.site(rq, lk.node))
+        cs = Q.calls_to(callee='namedtuple.ChildSa')
         ctx.check(len(cs) == 1, 'R1', 'the responder builds one ChildSa', key=('R1', 'childsa'), site=ctx.site(rq, rq.node))
+        want_mode = mode_term(Q, msg)
         for c in cs:
-            kw = kwargs_of(c, names=[])
-            ctx.check(src(kw.get('tsi')) == local_l and src(kw.get('tsr')) == peer_l, 'R1',
+            kw = c.args
+            ctx.check(kw.get('tsi') == local_l and kw.get('tsr') == peer_l, 'R1',
                       'the installed CHILD_SA takes the narrowed local selector as tsi and the narrowed peer selector as tsr',
-                      key=('R1', 'childsa-orientation'), site=ctx.site(rq, c))
-            ctx.check(src(kw.get('lifetime')) == conf_l + '.lifetime' and src(kw.get('original_proposal')) == conf_l + '.proposal',
+                      key=('R1', 'childsa-orientation'), site=ctx.site(rq, c.node))
+            ctx.check(kw.get('lifetime') == attr(conf_l, 'lifetime') and kw.get('original_proposal') == attr(conf_l, 'proposal'),
                       'R1', 'lifetime and original proposal come from the matched policy entry', key=('R1', 'childsa-conf'),
-                      site=ctx.site(rq, c))
-            mode_var = src(kw.get('mode'))
-        tsi_p = [c for c in calls_in(rq.node) if callee_name(c) == 'PayloadTSi']
-        tsr_p = [c for c in calls_in(rq.node) if callee_name(c) == 'PayloadTSr']
-        ctx.check(len(tsi_p) == 1 and len(tsr_p) == 1 and src(tsi_p[0].args[0]) == '[%s]' % peer_l
-                  and src(tsr_p[0].args[0]) == '[%s]' % local_l, 'R1',
+                      site=ctx.site(rq, c.node))
+            ctx.check(kw.get('mode') is not None and (same(kw['mode'], want_mode) or kw['mode'] == attr(conf_l, 'mode')), 'R1',
+                      'the installed CHILD_SA has the mode that was compared (TRANSPORT iff the request carries a protected '
+                      'USE_TRANSPORT_MODE notification, else TUNNEL)', key=('R1', 'childsa-mode'), site=ctx.site(rq, c.node),
+                      detail={'found': tq.text(kw.get('mode', NONE), 300)})
+        tsi_p = Q.calls_to(callee='new message.PayloadTSi')
+        tsr_p = Q.calls_to(callee='new message.PayloadTSr')
+        ctx.check(len(tsi_p) == 1 and len(tsr_p) == 1 and list(tsi_p[0].args.values())[:1] == [('list', (peer_l,))]
+                  and list(tsr_p[0].args.values())[:1] == [('list', (local_l,))], 'R1',
                   'the response announces exactly the narrowed pair (TSi = peer side, TSr = local side)',
                   key=('R1', 'response-ts'), site=ctx.site(rq, rq.node))
         # mode
-        inst = [m for m, y in common.nodes_calling(ctx, rq, gq, common.calls_named('create_child_sa'))] + \
-               [m for m, y in common.nodes_calling(ctx, rq, gq, common.calls_named('append')) if 'child_sas' in src(y.func.value)]
-        mc = []
-        req_mode = None
-        for c in gq.nodes:
-            cp = compare_parts(c.ast) if c.kind == 'cond' else None
-            if cp and cp[1] in (ast.NotEq, ast.Eq) and conf_l + '.mode' in (src(cp[0]), src(cp[2])) \
-                    and src(cp[0]) != src(cp[2]):
-                mc.append((c, 'F' if cp[1] is ast.NotEq else 'T'))
-                req_mode = src(cp[2]) if src(cp[0]) == conf_l + '.mode' else src(cp[0])
-        ctx.check(len(mc) == 1, 'R1', 'the requested mode is compared with the policy\'s mode', key=('R1', 'mode-compare'),
-                  site=ctx.site(rq, rq.node))
-        for c, passing in mc:
-            failing = 'T' if passing == 'F' else 'F'
-            fn = [m for l2, m in c.succ if l2 == failing]
-            ctx.check(bool(fn) and all(isinstance(m.ast, ast.Raise) and 'TsUnacceptable' in src(m.ast) for m in fn), 'R1',
-                      'a mode mismatch raises TsUnacceptable', key=('R1', 'mode-raise'), site=ctx.site(rq, c.ast))
-            ctx.check(len(inst) >= 2 and all(common.dominated_by_edge(gq, m, c, passing) for m in inst), 'R1',
-                      'tracking and kernel installation happen only after the mode matched', key=('R1', 'mode-dominates'),
-                      site=ctx.site(rq, c.ast))
-        ctx.check(len(inst) >= 2 and all(m.id not in gq.reach([gq.entry], blocked_nodes=[n]) for m in inst), 'R1',
-                  'tracking and kernel installation happen only after the policy lookup succeeded',
-                  key=('R1', 'lookup-dominates'), site=ctx.site(rq, x))
-        if len(mc) == 1:
-            ctx.check(mode_var in (req_mode, conf_l + '.mode'), 'R1', 'the installed CHILD_SA has the mode that was compared',
-                      key=('R1', 'childsa-mode'), site=ctx.site(rq, rq.node))
-            check_mode_var(ctx, rq, gq, req_mode, msg, 'R1')
+        inst_q = Q.calls_to(qual='xfrm.Xfrm.create_child_sa') + [c for c in Q.calls if c.name == 'append' and strip_ids(c.recv or NONE) == attr(SELF, 'child_sas')]
+        goal = Q.mk_cmp('==', attr(conf_l, 'mode'), want_mode)
+        ctx.check(len(inst_q) >= 2 and all(tq.entails(c.pc, goal) is True for c in inst_q), 'R1',
+                  'tracking and kernel installation happen only after the requested mode matched the policy\'s mode',
+                  key=('R1', 'mode-dominates'), site=ctx.site(rq, rq.node))
+        bad = [(rpc, rt) for rpc, rt, _ in Q.raises if tq.entails(rpc, ('not', goal)) is True]
+        ctx.check(bool(bad) and all(tq.is_call(rt, 'new message.TsUnacceptable') for _, rt in bad), 'R1',
+                  'a mode mismatch raises TsUnacceptable', key=('R1', 'mode-raise'), site=ctx.site(rq, rq.node))
+        ctx.check(len(inst_q) >= 2 and all(c.seq > lk.seq and tq.contains(c.term, lk.term) for c in inst_q), 'R1',
+                  'tracking and kernel installation happen only after the policy lookup succeeded (and use its result)',
+                  key=('R1', 'lookup-dominates'), site=ctx.site(rq, lk.node))
 
     # ---------------------------------------------------------------- R2
     rs = ctx.func(IKESA + '._process_create_child_sa_negotiation_res')
-    gs = esc.add_exception_edges(rs)
-    msg = rs.call_params()[0]
-    rep = [(n, x) for n, x in common.nodes_calling(ctx, rs, gs, common.calls_named('_replace'))]
+    S = ctx.sval(rs)
+    msg2 = rs.call_params()[0]
+    pending = attr(SELF, 'creating_child_sa')
+    rep = S.calls_to(callee='method._replace')
     ctx.check(len(rep) == 1, 'R2', 'the initiator completes its pending ChildSa from the response', key=('R2', 'replace'),
               site=ctx.site(rs, rs.node))
-    inst = [m for m, y in common.nodes_calling(ctx, rs, gs, common.calls_named('create_child_sa'))] + \
-           [m for m, y in common.nodes_calling(ctx, rs, gs, common.calls_named('append')) if 'child_sas' in src(y.func.value)] + \
-           [n for n, x in rep]
-    for n, x in rep:
-        kw = kwargs_of(x, names=[])
+    inst = S.calls_to(qual='xfrm.Xfrm.create_child_sa') + [c for c in S.calls if c.name == 'append' and strip_ids(c.recv or NONE) == attr(SELF, 'child_sas')] + rep
+    all_matches = []
+    for c in rep:
+        kw = c.args
         for side, ptype in (('tsi', 'TSi'), ('tsr', 'TSr')):
-            chosen = kw.get(side)
-            e = inline(res, rs, chosen, 4, frozenset([msg])) if chosen is not None else None
-            ok = e is not None and src(e) == '%s.get_payload(Payload.Type.%s, True).traffic_selectors[0]' % (msg, ptype)
+            chosen = kw.get(side, NONE)
+            ok = tq.match(S.expr('%s.get_payload(Payload.Type.%s, True).traffic_selectors[0]' % (msg2, ptype)), chosen) is not None
             ctx.check(ok, 'R2', 'the installed %s is the first selector of the response\'s protected %s payload' % (side, ptype),
-                      key=('R2', 'chosen', side), site=ctx.site(rs, x))
-            # matches list: [x for x in self.creating_child_sa.<side> if chosen.is_subset(x)]
-            good = None
-            for name, defs in res.local_defs(rs).items():
-                if len(defs) == 1 and isinstance(defs[0], ast.ListComp) and len(defs[0].generators) == 1:
-                    gen = defs[0].generators[0]
-                    if src(gen.iter) == 'self.creating_child_sa.' + side and len(gen.ifs) == 1 \
-                            and subset_fact(gen.ifs[0]) == (src(chosen), src(gen.target)) and src(defs[0].elt) == src(gen.target):
-                        good = name
-            ctx.check(good is not None, 'R2', 'the chosen %s is searched among the offered %s selectors with is_subset' % (side, side),
-                      key=('R2', 'matches', side), site=ctx.site(rs, x))
-            if good:
-                cs = [c for c in gs.nodes if c.kind == 'cond' and src(c.ast) == good]
-                ok = False
-                for c in cs:
-                    fn = [m for l2, m in c.succ if l2 == 'F']
-                    raises = bool(fn) and all(isinstance(m.ast, ast.Raise) and 'TsUnacceptable' in src(m.ast) for m in fn)
-                    ok = ok or (raises and all(common.dominated_by_edge(gs, m, c, 'T') for m in inst))
-                ctx.check(ok, 'R2', 'a response whose %s is not inside the offer raises TsUnacceptable before anything is '
-                          'tracked or installed' % side, key=('R2', 'widened', side), site=ctx.site(rs, x))
-    mc = []
-    for c in gs.nodes:
-        cp = compare_parts(c.ast) if c.kind == 'cond' else None
-        if cp and cp[1] in (ast.NotEq, ast.Eq) and 'self.creating_child_sa.mode' in (src(cp[0]), src(cp[2])):
-            other = cp[2] if src(cp[0]) == 'self.creating_child_sa.mode' else cp[0]
-            mc.append((c, 'F' if cp[1] is ast.NotEq else 'T', src(other)))
-    ctx.check(len(mc) == 1, 'R2', 'the mode of the response is compared with the requested one', key=('R2', 'mode-compare'),
-              site=ctx.site(rs, rs.node))
-    for c, passing, mv in mc:
-        failing = 'T' if passing == 'F' else 'F'
-        fn = [m for l2, m in c.succ if l2 == failing]
-        ctx.check(bool(fn) and all(isinstance(m.ast, ast.Raise) and 'TsUnacceptable' in src(m.ast) for m in fn), 'R2',
-                  'a changed mode raises TsUnacceptable', key=('R2', 'mode-raise'), site=ctx.site(rs, c.ast))
-        ctx.check(len(inst) >= 3 and all(common.dominated_by_edge(gs, m, c, passing) for m in inst), 'R2',
-                  'nothing is tracked or installed unless the mode matched', key=('R2', 'mode-dominates'), site=ctx.site(rs, c.ast))
-        d = single_def(res, rs, mv)
-        ok = isinstance(d, ast.IfExp) and src(d.body) == 'xfrm.Mode.TRANSPORT' and src(d.orelse) == 'xfrm.Mode.TUNNEL' \
-            and src(inline(res, rs, d.test, 3, frozenset([msg]))) == '%s.get_notifies(PayloadNOTIFY.Type.USE_TRANSPORT_MODE, True)' % msg
-        ctx.check(ok, 'R2', 'the response asks for transport mode iff it carries a protected USE_TRANSPORT_MODE notification',
-                  key=('R2', 'mode-value'), site=ctx.site(rs, c.ast))
+                      key=('R2', 'chosen', side), site=ctx.site(rs, c.node))
+            offered = attr(pending, side)
+            el = ('elem', offered, 0)
+            matches = ('list', (('each', 0, offered, norm_pc(((('call', 'message.TrafficSelector.is_subset', strip_ids(chosen), (('other', el),)), True),)), el),))
+            found = any(strip_ids(a[0]) == matches and a[1] for x in inst for a in x.pc)
+            ctx.check(found, 'R2', 'the chosen %s is searched among the offered %s selectors with is_subset' % (side, side),
+                      key=('R2', 'matches', side), site=ctx.site(rs, c.node))
+            ok = len(inst) >= 3 and all(any(strip_ids(a[0]) == matches and a[1] for a in x.pc) for x in inst)
+            all_matches.append(matches)
+            # the refusal: an exception raised exactly when one of the searches found nothing
+            bad = [(rpc, rt) for rpc, rt, _ in S.raises if any(tq.contains(a[0], matches) for a in strip_ids(rpc))]
+            ok = ok and bool(bad) and all(tq.is_call(rt, 'new message.TsUnacceptable') for _, rt in bad)
+            ctx.check(ok, 'R2', 'a response whose %s is not inside the offer raises TsUnacceptable before anything is '
+                      'tracked or installed' % side, key=('R2', 'widened', side), site=ctx.site(rs, c.node))
+    goal = S.mk_cmp('==', attr(pending, 'mode'), mode_term(S, msg2))
+    ctx.check(len(inst) >= 3 and all(tq.entails(x.pc, goal) is True for x in inst), 'R2',
+              'nothing is tracked or installed unless the mode of the response (transport iff it carries a protected '
+              'USE_TRANSPORT_MODE notification) equals the requested one', key=('R2', 'mode-dominates'), site=ctx.site(rs, rs.node))
+    bad = [(rpc, rt) for rpc, rt, _ in S.raises if tq.entails(rpc, ('not', goal)) is True]
+    ctx.check(bool(bad) and all(tq.is_call(rt, 'new message.TsUnacceptable') for _, rt in bad), 'R2',
+              'a changed mode raises TsUnacceptable', key=('R2', 'mode-raise'), site=ctx.site(rs, rs.node))
 
     # ---------------------------------------------------------------- R3
-    ok = False
-    for c1 in gq.nodes:
-        if c1.kind != 'cond':
-            continue
-        cp = compare_parts(c1.ast)
-        if cp and cp[1] is ast.NotEq and src(cp[0]).endswith('.traffic_selectors') and src(cp[2]).startswith('[rekeyed_child_sa.'):
-            pass
-    conds = []
-    for c in gq.nodes:
-        cp = compare_parts(c.ast) if c.kind == 'cond' else None
-        if cp and cp[1] in (ast.NotEq, ast.Eq) and isinstance(cp[2], ast.List) and len(cp[2].elts) == 1 \
-                and src(cp[0]).endswith('.traffic_selectors'):
-            lst = inline(res, rq, cp[0].value, 3, frozenset([rq.call_params()[0]]))
-            which = 'TSi' if 'Type.TSi' in src(lst) else 'TSr' if 'Type.TSr' in src(lst) else None
-            conds.append((c, 'F' if cp[1] is ast.NotEq else 'T', which, src(cp[2].elts[0])))
-    got = {w: e for _, _, w, e in conds}
-    rk = None
-    for name, defs in res.local_defs(rq).items():
-        if len(defs) == 1 and isinstance(defs[0], ast.Call) and callee_name(defs[0]) == 'get_child_sa' \
-                and 'rekey' in src(defs[0].args[0]):
-            rk = name
-    ctx.check(rk is not None and got == {'TSi': rk + '.tsr', 'TSr': rk + '.tsi'}, 'R3',
-              'a rekey request must carry exactly the selectors of the replaced SA (TSi = its peer-side tsr, TSr = its local tsi)',
-              key=('R3', 'rekey-compare'), site=ctx.site(rq, rq.node), detail={'found': got})
-    inst_q = [m for m, y in common.nodes_calling(ctx, rq, gq, common.calls_named('create_child_sa'))]
-    rekc = [c for c in gq.nodes if c.kind == 'cond' and src(c.ast) == 'rekey_notify']
-    for c, passing, which, _ in conds:
-        failing = 'T' if passing == 'F' else 'F'
-        fn = [m for l2, m in c.succ if l2 == failing]
-        ctx.check(bool(fn) and all(isinstance(m.ast, ast.Raise) and 'TsUnacceptable' in src(m.ast) for m in fn), 'R3',
-                  'differing %s on a rekey raises TsUnacceptable' % which, key=('R3', 'raise', which), site=ctx.site(rq, c.ast))
-        blocked = [(c.id, passing, m.id) for l2, m in c.succ if l2 == passing] + \
-                  [(k.id, 'F', m.id) for k in rekc for l2, m in k.succ if l2 == 'F']
-        ctx.check(bool(rekc) and all(m.id not in gq.reach([gq.entry], blocked_edges=blocked, follow_exc=False) for m in inst_q),
-                  'R3', 'for a rekey, nothing is installed unless the %s comparison passed' % which,
-                  key=('R3', 'dominates', which), site=ctx.site(rq, c.ast))
+    rekey = Q.expr('%s.get_notifies(PayloadNOTIFY.Type.REKEY_SA, encrypted=True)' % msg)
+    rk = Q.expr('self.get_child_sa(%s.get_notifies(PayloadNOTIFY.Type.REKEY_SA, encrypted=True)[0].spi)' % msg)
+    tsi_l = Q.expr('%s.get_payload(Payload.Type.TSi, True).traffic_selectors' % msg)
+    tsr_l = Q.expr('%s.get_payload(Payload.Type.TSr, True).traffic_selectors' % msg)
+    g_tsi = Q.mk_cmp('==', tsi_l, ('list', (attr(rk, 'tsr'),)))
+    g_tsr = Q.mk_cmp('==', tsr_l, ('list', (attr(rk, 'tsi'),)))
+    cc = Q.calls_to(qual='xfrm.Xfrm.create_child_sa')
+    for which, goal in (('TSi', g_tsi), ('TSr', g_tsr)):
+        ok = bool(cc) and all(tq.entails(tuple(c.pc) + ((strip_ids(rekey), True),), strip_ids(goal)) is True for c in cc)
+        ctx.check(ok, 'R3', 'for a rekey, nothing is installed unless the request\'s %s equals the replaced SA\'s %s' % (
+            which, 'peer-side tsr' if which == 'TSi' else 'local tsi'), key=('R3', 'dominates', which), site=ctx.site(rq, rq.node))
+    bad = [(rpc, rt) for rpc, rt, _ in Q.raises if tq.entails(rpc, ('or', (('not', strip_ids(g_tsi)), ('not', strip_ids(g_tsr))))) is True
+           and any(strip_ids(a[0]) == strip_ids(rekey) and a[1] for a in rpc)]
+    ctx.check(bool(bad) and all(tq.is_call(rt, 'new message.TsUnacceptable') for _, rt in bad), 'R3',
+              'differing selectors on a rekey raise TsUnacceptable', key=('R3', 'raise'), site=ctx.site(rq, rq.node))
     eq = ctx.func('message.TrafficSelector.__eq__')
-    t = src(eq.node.body[-1])
+    EQ = ctx.sval(eq)
+    o = eq.call_params()[0]
     fields = ['ts_type', 'ip_proto', 'start_port', 'end_port', 'start_addr', 'end_addr']
-    ctx.check(all('self.' + f in t and 'other.' + f in t for f in fields) and '==' in t and ' or ' not in t, 'R3',
+    base = {}
+    for f in fields:
+        base['self.' + f] = 1
+        base[o + '.' + f] = 1
+    vals = [common.term_table(ctx, EQ.ret(), [base], None)]
+    for f in fields:
+        vals.append(common.term_table(ctx, EQ.ret(), [dict(base, **{o + '.' + f: 2})], None))
+    ctx.check(vals[0] is not None and bool(vals[0][0]) is True and all(v is not None and bool(v[0]) is False for v in vals[1:]), 'R3',
               'TrafficSelector equality covers type, protocol, both ports and both addresses', key=('R3', 'ts-eq'),
-              site=ctx.site(eq, eq.node))
+              site=ctx.site(eq, eq.node), detail={'returned': tq.text(EQ.ret(), 400)})
     pe = ctx.func(IKESA + '.process_expire')
-    cs = [c for c in calls_in(pe.node) if callee_name(c) == 'ChildSa']
+    PE = ctx.sval(pe)
+    cs = PE.calls_to(callee='namedtuple.ChildSa')
     ok = len(cs) == 1
     if ok:
-        kw = kwargs_of(cs[0], names=[])
-        old = None
-        for name, defs in res.local_defs(pe).items():
-            if len(defs) == 1 and isinstance(defs[0], ast.Call) and callee_name(defs[0]) == 'get_child_sa':
-                old = name
-        ok = old is not None and src(kw.get('tsi')) == '[%s.tsi]' % old and src(kw.get('tsr')) == '[%s.tsr]' % old \
-            and src(kw.get('mode')) == old + '.mode'
+        kw = cs[0].args
+        old = PE.expr('self.get_child_sa(%s)' % pe.call_params()[0])
+        ok = same(kw.get('tsi', NONE), ('list', (attr(old, 'tsi'),))) and same(kw.get('tsr', NONE), ('list', (attr(old, 'tsr'),))) \
+            and same(kw.get('mode', NONE), attr(old, 'mode'))
     ctx.check(ok, 'R3', 'a rekey request re-offers exactly the selectors and mode of the SA being replaced',
               key=('R3', 'rekey-offer'), site=ctx.site(pe, pe.node))
 
@@ -299,69 +271,85 @@ def run(ctx):
 
     # ---------------------------------------------------------------- R5
     fn_ = ctx.func('message.TrafficSelector.from_network')
+    F = ctx.sval(fn_)
     psn = fn_.call_params()
-    rets = [r for r in walk_no_nested(fn_.node) if isinstance(r, ast.Return)]
-    ok = len(rets) == 1 and isinstance(rets[0].value, ast.Call) and callee_name(rets[0].value) == 'TrafficSelector' \
-        and len(rets[0].value.args) == 6
+    r = F.ret()
+    ok = tq.is_call(r, 'new message.TrafficSelector')
     if ok:
-        a = rets[0].value.args
-        ty = inline(res, fn_, a[0], 2)
-        ok = src(a[1]) == psn[2] and src(a[2]) == psn[1] and src(a[4]) == psn[0] + '[0]' and src(a[5]) == psn[0] + '[-1]' \
-            and src(a[3]) in ('65535 if %s == 0 else %s' % (psn[1], psn[1]), '%s if %s != 0 else 65535' % (psn[1], psn[1])) \
-            and isinstance(ty, ast.IfExp) and src(ty.test) == psn[0] + '[0].version == 6' \
-            and src(ty.body).endswith('TS_IPV6_ADDR_RANGE') and src(ty.orelse).endswith('TS_IPV4_ADDR_RANGE')
+        a = tq.args(r)
+        net, port, proto = (('param', x) for x in psn[:3])
+        ok = a.get('ip_proto') == proto and a.get('start_port') == port and a.get('start_addr') == ('index', net, const(0)) \
+            and a.get('end_addr') == ('index', net, const(-1))
+        ends = common.term_table(ctx, a.get('end_port', NONE), [{psn[1]: 0}, {psn[1]: 80}, {psn[1]: 65535}], None)
+        ok = ok and ends == [65535, 80, 65535]
+        tys = []
+        for v in (4, 6):
+            def leaf(t, v=v):
+                if strip_ids(t) == attr(('index', net, const(0)), 'version'):
+                    return v
+                if t[0] == 'global':
+                    return t[1].split('.')[-1]
+                raise tq.NoValue()
+            try:
+                tys.append(tq.teval(a.get('ts_type', NONE), leaf))
+            except (tq.NoValue, Exception):
+                tys.append(None)
+        ok = ok and tys == ['TS_IPV4_ADDR_RANGE', 'TS_IPV6_ADDR_RANGE']
     ctx.check(ok, 'R5', 'from_network: port 0 means 0..65535, otherwise the single port; addresses are the first and last of '
-              'the network; type by IP version', key=('R5', 'from-network'), site=ctx.site(fn_, fn_.node))
+              'the network; type by IP version', key=('R5', 'from-network'), site=ctx.site(fn_, fn_.node), detail={'returned': tq.text(r, 500)})
     gp = ctx.func('message.TrafficSelector.get_port')
     vals = {}
     for sp, ep in ((0, 65535), (0, 0), (80, 80), (1, 65535), (0, 65534), (443, 443)):
-        vals[(sp, ep)] = evaluate(prog, gp, {'self.start_port': sp, 'self.end_port': ep})
+        v = common.term_table(ctx, ctx.sval(gp).ret(), [{'self.start_port': sp, 'self.end_port': ep}], None)
+        vals[(sp, ep)] = v[0] if v else None
     ctx.check(vals == {(0, 65535): 0, (0, 0): 0, (80, 80): 80, (1, 65535): 65535, (0, 65534): 65534, (443, 443): 443}, 'R5',
               'get_port is the inverse: the full range gives 0, a single port gives that port', key=('R5', 'get-port'),
               site=ctx.site(gp, gp.node), detail={'found': {str(k): v for k, v in vals.items()}})
     gn = ctx.func('message.TrafficSelector.get_network')
-    t = [src(s) for s in gn.node.body]
-    ctx.check(t == ['network = ip_network(self.start_addr)', 'while self.end_addr not in network:\n    network = network.supernet()',
-                    'return network'], 'R5', 'get_network is the smallest network starting at start_addr widened until it '
-              'contains end_addr', key=('R5', 'get-network'), site=ctx.site(gn, gn.node))
+    N = ctx.sval(gn)
+    loops = list(N.loops.items())
+    ok = len(loops) == 1 and isinstance(loops[0][1][0], ast.While)
+    if ok:
+        lid = loops[0][0]
+        ups, inits = N.loop_updates[lid], N.loop_inits[lid]
+        var = [k for k, v in inits.items() if same(v, N.expr('ip_network(self.start_addr)'))]
+        ok = len(var) == 1
+        if ok:
+            cur = ('acc', var[0], 0)
+            ok = strip_ids(loops[0][1][1]) == ('while', ('not', strip_ids(N.mk_cmp('in', attr(SELF, 'end_addr'), cur)))) and \
+                strip_ids(ups[var[0]]) == ('call', 'method.supernet', cur, ()) and \
+                [strip_ids(t)[:2] for _, t, _ in N.returns] == [('loopout', var[0])]
+    ctx.check(ok, 'R5', 'get_network is the smallest network starting at start_addr widened until it contains end_addr',
+              key=('R5', 'get-network'), site=ctx.site(gn, gn.node))
     fe = ctx.func('message.PayloadNOTIFY.from_exception')
-    tab = None
-    for n_ in walk_no_nested(fe.node):
-        if isinstance(n_, ast.Assign) and isinstance(n_.value, ast.Dict):
-            tab = {src(k): src(v).split('.')[-1] for k, v in zip(n_.value.keys, n_.value.values)}
-    ctx.check(tab is not None and tab.get('TsUnacceptable') == 'TS_UNACCEPTABLE', 'R5', 'TsUnacceptable -> TS_UNACCEPTABLE',
-              key=('R5', 'table'), site=ctx.site(fe, fe.node))
-    hs = [h for h in gq.nodes if h.kind == 'handler' and h.ast.type is not None and 'TsUnacceptable' in src(h.ast.type)]
-    ctx.check(any(len([s for s in h.ast.body if isinstance(s, ast.Return)]) == 1 and src(
-        [s for s in h.ast.body if isinstance(s, ast.Return)][0].value) == '[PayloadNOTIFY.from_exception(%s)]' % h.ast.name
-        for h in hs), 'R5', 'the responder answers TsUnacceptable with the single notification built from it',
-        key=('R5', 'refusal-reply'), site=ctx.site(rq, rq.node))
+    FE = ctx.sval(fe)
+    note = FE.ret()
+    nt = tq.args(note).get('notification_type', NONE) if tq.is_call(note, 'new message.PayloadNOTIFY') else NONE
+    tab = {}
+    for d_ in tq.find(nt, lambda x: x[0] == 'dict'):
+        for e in d_[1]:
+            if len(e) == 2:
+                tab[tq.text(e[0]).split('.')[-1]] = tq.text(e[1]).split('.')[-1]
+    ctx.check(tab.get('TsUnacceptable') == 'TS_UNACCEPTABLE', 'R5', 'TsUnacceptable -> TS_UNACCEPTABLE', key=('R5', 'table'), site=ctx.site(fe, fe.node))
+    ok = False
+    for pc, t, _ in Q.returns:
+        caught = [a[0] for a in pc if a[0][0] == 'caught' and a[1]]
+        if caught and 'TsUnacceptable' in tq.text(caught[0]):
+            st = strip_ids(t)
+            ok = st[0] == 'list' and len(st[1]) == 1 and tq.is_call(st[1][0], 'message.PayloadNOTIFY.from_exception') \
+                and list(tq.args(st[1][0]).values())[0][0] == 'exc'
+    ctx.check(ok, 'R5', 'the responder answers TsUnacceptable with the single notification built from it',
+              key=('R5', 'refusal-reply'), site=ctx.site(rq, rq.node))
 
     # ---------------------------------------------------------------- R6
     cc = ctx.func('xfrm.Xfrm.create_child_sa')
+    C = ctx.sval(cc)
+    outs = [c for c in C.calls_to(qual='xfrm.Xfrm.create_sa') if c.args.get('spi') == attr(('param', 'child_sa'), 'outbound_spi')]
     want = {'src_selector': 'child_sa.tsi.get_network()', 'dst_selector': 'child_sa.tsr.get_network()',
             'src_port': 'child_sa.tsi.get_port()', 'dst_port': 'child_sa.tsr.get_port()'}
     for k, v in want.items():
-        d = single_def(res, cc, k)
-        ctx.check(isinstance(d, ast.AST) and src(d) == v, 'R6', 'kernel %s is %s' % (k, v), key=('R6', k), site=ctx.site(cc, cc.node))
-
-
-def check_mode_var(ctx, fi, g, mode_var, msg, rule):
-    defs = ctx.res.local_defs(fi).get(mode_var, [])
-    vals = sorted(src(d) for d in defs if isinstance(d, ast.AST))
-    ok = vals == ['xfrm.Mode.TRANSPORT', 'xfrm.Mode.TUNNEL']
-    if ok:
-        tr = [n for n in g.nodes if n.kind == 'stmt' and isinstance(n.ast, ast.Assign) and src(n.ast.targets[0]) == mode_var
-              and src(n.ast.value) == 'xfrm.Mode.TRANSPORT']
-        tu = [n for n in g.nodes if n.kind == 'stmt' and isinstance(n.ast, ast.Assign) and src(n.ast.targets[0]) == mode_var
-              and src(n.ast.value) == 'xfrm.Mode.TUNNEL']
-        conds = [c for c in g.nodes if c.kind == 'cond'
-                 and src(c.ast) == '%s.get_notifies(PayloadNOTIFY.Type.USE_TRANSPORT_MODE, True)' % msg]
-        ok = len(tr) == 1 and len(tu) == 1 and len(conds) == 1 and common.dominated_by_edge(g, tr[0], conds[0], 'T') \
-            and tr[0].id in g.reach([tu[0]]) and tu[0].id not in g.reach([tr[0]]) \
-            and [m for l2, m in conds[0].succ if l2 == 'T'][0].id in g.reach([tu[0]])
-    ctx.check(ok, rule, 'the requested mode is TRANSPORT iff the request carries a protected USE_TRANSPORT_MODE notification, '
-              'else TUNNEL', key=(rule, 'mode-value'), site=ctx.site(fi, fi.node))
+        ctx.check(len(outs) == 1 and same(outs[0].args.get(k, NONE), C.expr(v)), 'R6', 'kernel %s (outbound SA) is %s' % (k, v),
+                  key=('R6', k), site=ctx.site(cc, cc.node))
 
 
 MANIFEST = {
@@ -375,6 +363,6 @@ MANIFEST = {
              'constants; kernel selectors come from the CHILD_SA\'s own selectors.',
     'note': 'Trusted: resolver typing; order-invariance of is_subset (it only compares). Declined: get_network\'s supernet '
             'result for all ranges; list-level narrowing beyond per-element facts.',
-    'technique': 'dominance with inclusion facts + exhaustive finite-abstraction evaluation of the containment predicate',
+    'technique': 'inclusion facts from path conditions (value terms) + entailment of the validations + exhaustive finite-abstraction evaluation of the containment predicate',
     'design_ref': 'DESIGN.md 3/C12',
 }
